@@ -156,13 +156,16 @@ end Audit
 section AuditFile
 variable {σ : Type} [DecidableEq σ]
 
-/-- CVR.merge_cvrs L461-481 restricted to id and votes (phantom / pool flags are not observed here) -/
+/-- CVR.merge_cvrs L462-466, one iteration of the loop, restricted to id and votes (phantom / pool flags are
+not observed here) -/
+def mergeStep (od : List (σ × Votes σ σ)) (c : σ × Votes σ σ) : List (σ × Votes σ σ) :=
+  match dget od c.1 with
+  | none => od ++ [c]                                        -- L463-464
+  | some votes => dictSet od c.1 (dictUpdate votes c.2)      -- L466
+
+/-- CVR.merge_cvrs L461-481 -/
 def mergeCvrs (cvrList : List (σ × Votes σ σ)) : List (σ × Votes σ σ) :=
-  cvrList.foldl (fun od c =>
-    match dget od c.1 with
-    | none => od ++ [c]                                        -- L463-464
-    | some votes => dictSet od c.1 (dictUpdate votes c.2))     -- L466
-    []
+  cvrList.foldl mergeStep []
 
 /-- one row `c` of a RAIRE file → (id, votes)  L402-409 -/
 def fromRaireRow (c : List σ) : Except Err (σ × Votes σ σ) :=
@@ -318,17 +321,27 @@ def loadBallotLine (contestInfo : List (String × List String × String))
     | some info => .ok (setBallot cvrs bid cid (loadRaireBallot info.1 prefs))
   | _ => .error Err.IndexError                                                               -- L134-135
 
-/-- load_contests_from_raire L80-157: `ncontests = int(lines[0])`, `rows` = the token lists of all lines.
-Returns the contests (cid, candidates, winner) in `contest_info` order and the cvrs -/
-def loadContestsFromRaire (ncontests : Nat) (rows : List (List String)) :
-    Except Err (List (String × List String × String) × List (String × GCvr String String)) := do
-  let contestInfo ← (List.range ncontests).foldlM (fun (info : List (String × List String × String)) i => do
+/-- load_contests_from_raire L100-129: the contest lines → `contest_info` (cid ↦ (candidates, winner)) -/
+def loadContestInfo (ncontests : Nat) (rows : List (List String)) :
+    Except Err (List (String × List String × String)) :=
+  (List.range ncontests).foldlM (fun (info : List (String × List String × String)) i => do
       let toks ← match rows[1 + i]? with | some t => pure t | none => throw Err.IndexError   -- L101
       let (cid, cands, winner) ← parseContestLine toks
       pure (dictSet info cid (cands, winner)))                                               -- L128
     []
-  let cvrs ← (rows.drop (ncontests + 1)).foldlM (loadBallotLine contestInfo) []              -- L131-149
-  pure (contestInfo.map (fun x => (x.1, x.2.1, x.2.2)), cvrs)                                -- L151-157
+
+/-- load_contests_from_raire L131-149: the ballot lines → `cvrs` -/
+def loadBallotLines (contestInfo : List (String × List String × String)) (lines : List (List String)) :
+    Except Err (List (String × GCvr String String)) :=
+  lines.foldlM (loadBallotLine contestInfo) []
+
+/-- load_contests_from_raire L80-157: `ncontests = int(lines[0])`, `rows` = the token lists of all lines.
+Returns the contests (cid, candidates, winner) in `contest_info` order and the cvrs -/
+def loadContestsFromRaire (ncontests : Nat) (rows : List (List String)) :
+    Except Err (List (String × List String × String) × List (String × GCvr String String)) := do
+  let contestInfo ← loadContestInfo ncontests rows
+  let cvrs ← loadBallotLines contestInfo (rows.drop (ncontests + 1))                         -- L131-149
+  pure (contestInfo, cvrs)                                                                   -- L151-157
 
 end GenFile
 
